@@ -77,7 +77,8 @@
 (*     fee is kept (and the payer's sequence consumed) or nothing is       *)
 (*     charged.                                                            *)
 (*  P12 genesis.  ExportGenesis followed by InitGenesis reproduces the     *)
-(*     lists, the active flag and the id counter (P2 continues to hold).   *)
+(*     lists, the active flag and the id counter (P2 continues to hold)    *)
+(*     and changes nothing else.                                           *)
 (*                                                                         *)
 (* A transaction is several actions: TxBegin, TxAnte, TxExec, TxPost,      *)
 (* TxEnd; `fl` holds the transaction in flight, the state the execution    *)
